@@ -6,13 +6,19 @@ Open Scope Q_scope.
    relative to the first entry (Time), tolerance, the implementation's rebinned values *)
 Record tab := mkTab { tvals : list Q; tlen : Q; tf : Q; trel : bool; ttol : Q; timpl : list (option Q) }.
 
+(* efs: bin factors in array order.  WCS-backed extra coords over an exact linear probe (world = A p + b in the extra WCS's own pixel dimensions), mapped to
+   the cube's pixel axes epm: observed at cube output positions E' (array order) -> world values reported by the
+   rebinned cube's extra coords through ITS mapping *)
+Record ecobs := mkEc { en : nat; epm : list nat; efs : list Q; eA : list (list Q); eb : list Q; eobs : list (list Q * list Q) }.
+
 Record case := mk {
   fs : list Q;                       (* bin factors, array order *)
   aff : list (Q * Q);                (* source: base pixel = a*p + b per array axis (observed on the source) *)
   nout : list nat;                   (* output length per array axis *)
   centres : list (list Q);           (* impl: base pixel reported at output centre j, per axis *)
   corners : list (list Q);           (* impl: base pixel reported at output edge k - 1/2, per axis, k = 0..n' *)
-  tabs : list tab }.
+  tabs : list tab;
+  ecs : list ecobs }.
 
 Definition qnear_tol (tol a b : Q) : bool :=
   Qle_bool (Qabs (a - b)) (tol * (if Qle_bool 1 (Qabs b) then Qabs b else 1)).
@@ -45,6 +51,13 @@ Definition tab_ok (t : tab) : bool :=
                      | None, None => true
                      | _, _ => false end) m (timpl t).
 
+Definition dotq (u v : list Q) : Q := fold_right Qplus 0 (map (fun '(x, y) => x * y) (combine u v)).
+Definition linW (A : list (list Q)) (b : list Q) (p : list Q) : list Q := map (fun '(row, bi) => dotq row p + bi) (combine A b).
+Definition ec_ok (e : ecobs) : bool :=
+  forallb (fun '(E', w) =>
+             all2 qn w (ec_resampled (linW (eA e) (eb e)) (en e) (epm e) (efs e) (map rebin_offset (efs e)) (ec_pixel (en e) (epm e) E')))
+          (eobs e).
+
 Definition agree (c : case) : bool :=
-  forallb (axis_ok c) (seq 0 (length (fs c))) && forallb tab_ok (tabs c).
+  forallb (axis_ok c) (seq 0 (length (fs c))) && forallb tab_ok (tabs c) && forallb ec_ok (ecs c).
 Definition dom (c : case) : bool := true.
